@@ -819,9 +819,19 @@ func c15r3(c *core.Ctx) {
 		sort.Strings(wp)
 		chk(fmt.Sprint(gp) == fmt.Sprint(wp), "permissions %v, metadata %v", x.Perms, wantPerms)
 		chk(x.Unit == m.Unit, "unit %q, metadata %q", x.Unit, m.Unit)
-		chk(numEq(x.Min, m.Constraints["MinimumValue"]), "minimum %v, metadata %v", x.Min, m.Constraints["MinimumValue"])
-		chk(numEq(x.Max, m.Constraints["MaximumValue"]), "maximum %v, metadata %v", x.Max, m.Constraints["MaximumValue"])
-		chk(numEq(x.Step, m.Constraints["StepValue"]), "step %v, metadata %v", x.Step, m.Constraints["StepValue"])
+		// constraint keys are matched without regard to case: one entry of the bundled metadata spells its step "stepValue", which the
+		// generator (and the first version of this rule, which read the file the way the generator does) silently skipped
+		cons := func(key string) interface{} {
+			for k, v := range m.Constraints {
+				if strings.EqualFold(k, key) {
+					return v
+				}
+			}
+			return nil
+		}
+		chk(numEq(x.Min, cons("MinimumValue")), "minimum %v, metadata %v", x.Min, cons("MinimumValue"))
+		chk(numEq(x.Max, cons("MaximumValue")), "maximum %v, metadata %v", x.Max, cons("MaximumValue"))
+		chk(numEq(x.Step, cons("StepValue")), "step %v, metadata %v", x.Step, cons("StepValue"))
 		chk(x.Base == family[m.Format], "wrapper %s, format family %s", x.Base, family[m.Format])
 		chk(x.Wrapper == x.Name, "returns %s", x.Wrapper)
 		chk(x.HasDefault == readable, "default value present=%v, readable=%v", x.HasDefault, readable)
@@ -987,6 +997,9 @@ func c15r5(c *core.Ctx) {
 		}
 		if x.HasDefault && !readable {
 			diffs = append(diffs, "default value on a characteristic without read permission")
+		}
+		if readable && !x.HasDefault {
+			diffs = append(diffs, "readable, but the constructor sets no value: the stored value is nil, the typed getter panics on it and the attribute database serves the characteristic without a value")
 		}
 		c.Check(len(diffs) == 0, "extra:characteristic.New"+k, x.Pos, "no metadata entry; internally consistent (format, permissions, default)", strings.Join(diffs, "; "))
 	}
